@@ -1,11 +1,14 @@
 // Package c20: p2p codec (exhaustive corruption enumeration, codec.go) and
-// dispatcher (operation-sequence and schedule enumeration, dispatch.go).
+// dispatcher (operation-sequence and schedule enumeration over a base population
+// and its message-header variants, dispatch.go; exhaustive subscriber-filter x
+// message-header matrix through Match and Dispatch, filters.go).
 package c20
 
 import (
 	"encoding/json"
 	"fmt"
 	"os"
+	"time"
 
 	"github.com/xuperchain/xupercore/verifshim/vhook"
 
@@ -31,21 +34,41 @@ func run(tier core.Tier) *core.Report {
 	} else {
 		rep.Assume("codec half not linked into this build")
 	}
+	// base population: all operation sequences of length n, all schedules of the
+	// concurrent patterns within the preemption bound; header variants of message
+	// m0 (From x Bcname over {equal, empty, other, prefix, extension} relative to
+	// the subscribers' filters): the same enumerations with their own bounds
 	n, bound := 4, 2
+	vn, vbound := 3, 1
 	if tier == core.Thorough {
 		n, bound = 5, 4
+		vn, vbound = 4, 2
 	}
-	seqs, dels := runSequential(rep, n)
-	scheds, complete := runConcurrent(rep, bound)
+	t0 := time.Now()
+	runFilters(rep, tier)
+	tFilter := time.Since(t0)
+	t0 = time.Now()
+	seqs, dels := runSequential(rep, n, 0, 1, "")
+	vseqs, vdels := runSequential(rep, vn, 1, numVariants(), "_header_variants")
+	tSeq := time.Since(t0)
+	t0 = time.Now()
+	scheds, complete := runConcurrent(rep, bound, 0, 1)
+	vscheds, vcomplete := runConcurrent(rep, vbound, 1, numVariants())
+	tConc := time.Since(t0)
 	rep.Set("dispatch.sequences", seqs)
 	rep.Set("dispatch.sequence_length", n)
 	rep.Set("dispatch.deliveries_observed", dels)
 	rep.Set("dispatch.schedules", scheds)
 	rep.Set("dispatch.preemption_bound", bound)
-	rep.Add("states", seqs+scheds)
-	rep.Add("transitions", seqs*n+scheds)
-	rep.Add("traces_validated_against_impl", seqs+scheds)
-	if !complete {
+	rep.Set("dispatch.header_variants", map[string]interface{}{
+		"variants": numVariants() - 1, "m0_from": varFrom, "m0_bcname": varBc,
+		"rule":            "message m0 of the base population with every other (From, Bcname) of the two alphabets (equal, empty, other value, proper prefix, extension - relative to the sender filter of s1 and the chain filter of s0); per variant all operation sequences of the given length and all schedules of the 6 concurrent patterns within the given preemption bound, judged by the same history oracle with the reference predicate (filter empty -> any, else equality)",
+		"sequence_length": vn, "sequences": vseqs, "deliveries_observed": vdels, "preemption_bound": vbound, "schedules": vscheds})
+	rep.Set("dispatch.part_wall_ms", map[string]int{"filter_matrix": int(tFilter / time.Millisecond), "sequences": int(tSeq / time.Millisecond), "schedules": int(tConc / time.Millisecond)})
+	rep.Add("states", seqs+scheds+vseqs+vscheds)
+	rep.Add("transitions", seqs*n+scheds+vseqs*vn+vscheds)
+	rep.Add("traces_validated_against_impl", seqs+scheds+vseqs+vscheds)
+	if !complete || !vcomplete {
 		rep.Set("exhaustive", false)
 	}
 	core.RacePass(rep, "C20", "c20.dispatch")
@@ -59,6 +82,7 @@ func replay(c json.RawMessage) (bool, string, error) {
 		Part     string `json:"part"`
 		Ops      []int  `json:"ops"`
 		Pattern  int    `json:"pattern"`
+		Variant  int    `json:"variant"`
 		Schedule []int  `json:"schedule"`
 	}
 	if err := json.Unmarshal(c, &cs); err != nil {
@@ -68,7 +92,10 @@ func replay(c json.RawMessage) (bool, string, error) {
 	vhook.Release()
 	switch cs.Part {
 	case "dispatch-seq":
-		f := newFixture()
+		if cs.Variant < 0 || cs.Variant >= numVariants() {
+			return false, "", fmt.Errorf("unknown header variant %d", cs.Variant)
+		}
+		f := newFixtureVariant(cs.Variant)
 		for _, o := range cs.Ops {
 			f.op(opNames[o].kind, opNames[o].arg)
 		}
@@ -77,12 +104,27 @@ func replay(c json.RawMessage) (bool, string, error) {
 		}
 		return false, "sequence replayed without violation", nil
 	case "dispatch-conc":
-		in := newConc(cs.Pattern)()
-		o := vsched.Run(in.Bodies, cs.Schedule, 2000, true)
+		if cs.Variant < 0 || cs.Variant >= numVariants() {
+			return false, "", fmt.Errorf("unknown header variant %d", cs.Variant)
+		}
+		in := newConcVariant(cs.Pattern, cs.Variant)()
+		// a schedule recorded on a tree with a different synchronisation structure
+		// may name a choice that does not exist here; the scheduler then stops inside
+		// its own lock and never returns: such a replay reproduces nothing
+		ch := make(chan vsched.Outcome, 1)
+		go func() { ch <- vsched.Run(in.Bodies, cs.Schedule, 2000, true) }()
+		var o vsched.Outcome
+		select {
+		case o = <-ch:
+		case <-time.After(20 * time.Second):
+			return false, "the recorded schedule does not fit the synchronisation structure of this tree (replay diverged): nothing reproduced", nil
+		}
 		if v := in.Check(o); len(v) > 0 {
 			return true, fmt.Sprintf("%v\ntrace: %v", v, o.Trace), nil
 		}
 		return false, "schedule replayed without violation", nil
+	case "dispatch-filter":
+		return replayFilter(c)
 	case "race":
 		return false, "race reports are reproduced by the race pass itself (./run.sh C20 quick)", nil
 	}
